@@ -42,6 +42,12 @@ func (c *Cluster) checkC05Conservation(n *SimNode) {
 	if !n.running() {
 		return
 	}
+	if n.storeErrSeen {
+		// its database refused a write: what such a node does with its pools is
+		// not promised (the global clauses - nothing invented, nothing committed
+		// twice - stay in force)
+		return
+	}
 	core := n.core()
 	seq := core.Seq()
 	for i := n.ownScanned + 1; i <= seq; i++ {
@@ -100,7 +106,7 @@ func (c *Cluster) checkC05End() {
 	// expected to be committed: what the live nodes (this incarnation) accepted
 	liveAccepted := map[string]int{}
 	for _, n := range c.liveBabbling() {
-		if n.stalled {
+		if n.stalled || n.storeErrSeen {
 			continue
 		}
 		for _, tx := range n.acceptedTxs {
